@@ -48,8 +48,8 @@ INFO = {
          "Generated served trees and commands (view, view-raw, sum, diff, copy, sum-diff, globs; existing and missing targets) are executed locally and remotely; result class, text output and copied destination bytes must be identical. Exploration.",
          TB + "Error messages are not compared, only classes; one server per check process."),
  "C16": ("PBT over subcommand x selection x window x injected environment fault with effect oracles (baseline run + faulty run)",
-         "Every subcommand is run with generated selections, windows and faults (unopenable / unwritable text output, missing or corrupt source, uncreatable destination); a panic, or success without the effect, is a violation. Exploration / fault injection by construction.",
-         TB + "Root cannot be denied by permissions: ENOTDIR, EISDIR, /proc and /dev/full stand in."),
+         "Every subcommand is run with generated selections, windows and faults (unopenable / unwritable text output, missing, corrupt or unopenable source, layout mismatches, uncreatable or read-only destination); a panic, or success without the effect, is a violation. End-to-end cases run the built cmd/whispertool binary and judge its exit status (0 / 1 / 2). Exploration / fault injection by construction.",
+         TB + "Permission faults are produced by ENOTDIR, EISDIR, /proc, /dev/full and by switching the effective uid to nobody around the call; the end-to-end scenarios run at the real clock and use only clock-independent expectations."),
  "C18": ("PBT of view / view-raw text output parsed back and compared with library fetches and an independent parse of the file bytes",
          "Printed header, point records (bit-exact after parsing) and raw slot dumps are compared with the fetched windows and the physical slots; view records must reappear in view-raw. Exploration.",
          TB + "Z6 (from == until in view-raw) not asserted."),
